@@ -190,7 +190,8 @@ def formal_stat(ctx, kind, root, dom, terms, extra=()):
 
 
 def lemma_stat_congr(ctx, a, b, guard=None, name="stat_congr"):
-    """two statistics of the same kind over the same rows with the same data (under `guard`) are equal"""
+    """two statistics of the same kind over the same rows with the same data (under `guard`, a condition on the group
+    parameters only) are equal"""
     _use("stat_congr (a statistic is a function of the multiset of its rows' data)")
     if a.space is not b.space or a.kind != b.kind:
         raise Undecided("stat_congr over different spaces / kinds")
@@ -530,14 +531,22 @@ def lemma_sum_singleton(ctx, d, point, name="sum_singleton"):
     ctx.assume(d.sym == z3.If(at(d.dom), at(d.summand), 0 * at(d.summand)))
 
 
-def lemma_sum_congr(ctx, a, b, name="sum_congr"):
-    """Σ_A f = Σ_B g when A<->B and f=g on A pointwise."""
+def lemma_sum_congr(ctx, a, b, name="sum_congr", guard=None, points=()):
+    """Σ_A f = Σ_B g when A<->B and f=g on A pointwise.  With `guard` (a condition on the group parameters only): for
+    every parameter tuple satisfying the guard; `points` are further parameter tuples (lists of (const, term) pairs)
+    at which the conclusion is instantiated."""
     _use("sum_congr_dom")
     if a.space is not b.space:
         raise Undecided("sum_congr over different spaces")
+    g = guard if guard is not None else z3.BoolVal(True)
+    if _mentions(g, a.space.u):
+        raise Undecided("sum_congr guard mentions the summation index")
     ctx.oblige(
         name + "/side.pointwise",
-        z3.Implies(z3.And(*a.space.facts()), z3.And(a.dom == b.dom, z3.Implies(a.dom, a.summand == b.summand))),
+        z3.Implies(z3.And(g, *a.space.facts()), z3.And(a.dom == b.dom, z3.Implies(a.dom, a.summand == b.summand))),
         kind="lemma-side",
     )
-    ctx.assume(a.sym == b.sym)
+    concl = z3.Implies(g, a.sym == b.sym)
+    ctx.assume(concl)
+    for subs in points:
+        ctx.assume(z3.substitute(concl, *subs))
